@@ -162,10 +162,14 @@ def tx(e, cx):
             cx.use_global(e.id)
             return lname(e.id)
         if e.id in cx.derived:
-            ln, free = cx.derived[e.id]
+            # a derived module constant (e.g. a hoisted `_2d = (2*d) % Q`) is *inlined*: module constants
+            # are evaluated once from other constants by pure integer code, so its value is the value of
+            # its defining expression wherever it is read (the `k_<name>` definition is still emitted; a
+            # second binding of the same name makes Lean reject the duplicate definition)
+            txt, free = cx.derived[e.id]
             for g in free:
                 cx.use_global(g)
-            return "(%s%s)" % (ln, "".join(" " + lname(g) for g in free)) if free else ln
+            return txt
         die(cx.where, e, "unknown name %s" % e.id)
     if isinstance(e, ast.Attribute):
         key = ast.unparse(e)
@@ -194,6 +198,10 @@ def tx(e, cx):
                 return "(Py.pow3 %s %s %s)" % tuple(tx(a, cx) for a in e.args)
             if f == "pow" and len(e.args) == 2 and isinstance(e.args[1], ast.Constant):
                 return "(%s ^ %d)" % (tx(e.args[0], cx), e.args[1].value)
+            if f == "divmod" and len(e.args) == 2 and not e.keywords:
+                # divmod(a, b) == (a // b, a % b) for Python ints
+                a, b = tx(e.args[0], cx), tx(e.args[1], cx)
+                return "((Int.fdiv %s %s), (Int.emod %s %s))" % (a, b, a, b)
             if f == "int" and len(e.args) == 1:
                 a = e.args[0]
                 # int(math.ceil(x / y))
@@ -361,6 +369,14 @@ def body_to_lean(stmts, cx, indent, asserts):
 TYPES = {"int": "Int", "P4": "Int × Int × Int × Int", "P2": "Int × Int", "bool": "Bool"}
 
 
+def check_no_shadowing(cx, fn):
+    """a global (or a global mentioned by an inlined derived constant) must not also be a local name:
+    the generated Lean binds globals as parameters, which a `let` of the same name would capture"""
+    clash = set(cx.free) & set(cx.locals)
+    if clash:
+        die(cx.where, fn, "local name shadows module constant: %s" % ", ".join(sorted(clash)))
+
+
 def translate_function(fn, sig, cx_proto, where, attr_map=None, params_override=None):
     """sig = ([param types], return type).  returns (lean text, FnInfo)"""
     ptypes, rtype = sig
@@ -380,6 +396,7 @@ def translate_function(fn, sig, cx_proto, where, attr_map=None, params_override=
     if rec_calls:
         return translate_ladder(fn, sig, cx, lean_name, asserts)
     body = body_to_lean(fn.body, cx, 2, asserts)
+    check_no_shadowing(cx, fn)
     free = canon(cx.free)
     cx.free[:] = free
     hdr = "def %s %s%s : %s :=" % (
@@ -430,6 +447,7 @@ def translate_ladder(fn, sig, cx, lean_name, asserts):
     cx.locals.add("rec_")
     cx.types["rec_"] = "int"
     lines = body_to_lean(rest, cx, 4, asserts)
+    check_no_shadowing(cx, fn)
     free = canon(cx.free)
     fp = "".join("(%s : Int) " % lname(g) for g in free)
     fa = "".join(lname(g) + " " for g in free)
@@ -459,7 +477,9 @@ def const_int(node, env):
 # ---------------------------------------------------------------------------------------
 
 HEADER = """-- GENERATED by tools/py2lean.py from %s -- do not edit.
--- source sha256: %s
+-- (the sha256 of each translated source is reported in the translator's JSON output and in the evidence;
+--  it is deliberately not written here, so that edits which do not change the translation -- comments,
+--  hand-modelled code -- leave this file, its proofs and the build untouched)%.0s
 import Spake2Model.Py
 set_option linter.unusedVariables false
 namespace Spake2Model.Gen
@@ -487,6 +507,40 @@ def find_fn(mod, name, klass=None):
     raise Untranslatable("function %s%s not found" % (klass + "." if klass else "", name))
 
 
+def module_binding_counts(mod):
+    """how often each name is bound at module level (assignments, defs, classes, imports, loop / with /
+    except targets, walrus), plus names declared `global` inside functions or deleted: the translation reads a
+    module constant / function from its single module-level binding, so a second binding must stop it"""
+    counts = {}
+
+    def bump(n, k=1):
+        counts[n] = counts.get(n, 0) + k
+
+    def visit(node, top):
+        for ch in ast.iter_child_nodes(node):
+            if isinstance(ch, (ast.FunctionDef, ast.AsyncFunctionDef, ast.ClassDef)):
+                if top:
+                    bump(ch.name)
+                # inside: only `global` declarations matter
+                for x in ast.walk(ch):
+                    if isinstance(x, ast.Global):
+                        for n in x.names:
+                            bump(n, 2)
+                continue
+            if isinstance(ch, ast.Lambda):
+                continue
+            if isinstance(ch, ast.Name) and isinstance(ch.ctx, (ast.Store, ast.Del)):
+                bump(ch.id, 1 if isinstance(ch.ctx, ast.Store) else 2)
+            elif isinstance(ch, (ast.Import, ast.ImportFrom)):
+                for a in ch.names:
+                    bump((a.asname or a.name).split(".")[0], 2 if a.name == "*" else 1)
+            elif isinstance(ch, ast.ExceptHandler) and ch.name:
+                bump(ch.name)
+            visit(ch, top)
+    visit(mod, True)
+    return counts
+
+
 ED_SIGS = [
     ("inv", (["int"], "int")),
     ("xrecover", (["int"], "int")),
@@ -508,16 +562,25 @@ def gen_ed25519():
     env = {"fns": {}, "globals": set(), "derived": {}}
     out = [HEADER % ("src/spake2/ed25519_basic.py", h), "namespace Ed\n"]
     sigs = dict(ED_SIGS)
+    bindings = module_binding_counts(mod)
+    if any(isinstance(n, ast.ImportFrom) and any(a.name == "*" for a in n.names) for n in mod.body):
+        raise Untranslatable("ed25519_basic.py: star import")
+
+    def single(name, node):
+        if bindings.get(name, 0) != 1:
+            raise Untranslatable("ed25519_basic.py: line %d: %s is bound more than once at module level" % (node.lineno, name))
     # walk the module in source order so that constants may use earlier functions and vice versa
     for node in mod.body:
         if isinstance(node, ast.Assign) and len(node.targets) == 1 and isinstance(node.targets[0], ast.Name):
             name = node.targets[0].id
             if name in ED_CONSTS:
+                single(name, node)
                 txt, free = const_int(node.value, env)
                 out.append("/-- module constant `%s = %s` -/\ndef %s : Int := %s\n" % (name, ast.unparse(node.value), lname(name) + "_c", txt_with_consts(txt, free)))
                 env["globals"].add(name)
             elif name == "B":
                 # B = [Bx % Q, By % Q]
+                single(name, node)
                 txt, free = const_int(node.value, env)
                 out.append("/-- module constant `B = %s` -/\ndef B_c : Int × Int := %s\n" % (ast.unparse(node.value), txt_with_consts(txt, free)))
             else:
@@ -530,10 +593,14 @@ def gen_ed25519():
                     continue
                 free = canon(free)
                 ln = "k_" + name.lstrip("_")
-                out.append("/-- derived module constant `%s = %s` -/\ndef %s %s:= %s\n" % (
+                single(name, node)
+                if name in env["derived"] or name in env["fns"]:
+                    raise Untranslatable("ed25519_basic.py: line %d: module constant %s bound twice" % (node.lineno, name))
+                out.append("/-- derived module constant `%s = %s` (inlined where it is read) -/\ndef %s %s:= %s\n" % (
                     name, ast.unparse(node.value), ln, "".join("(%s : Int) " % lname(g) for g in free), txt))
-                env["derived"][name] = (ln, free)
+                env["derived"][name] = (txt, free)
         elif isinstance(node, ast.FunctionDef) and node.name in sigs:
+            single(node.name, node)
             txt, info = translate_function(node, sigs[node.name], env, "ed25519_basic.py")
             # the cast in is_extended_zero: parameter named XYTZ
             out.append(txt)
@@ -591,12 +658,28 @@ def gen_intgroup():
                 and len(r.value.args) == 2 and ast.unparse(r.value.args[0]) == "self"):
             die("groups.py", fn, "%s does not end in `return _Element(self, <expr>)`" % what)
         return r.value.args[1]
+    def is_guard(s, depth=0):
+        # isinstance/assert guards (modelled by hand): `assert ...`, `if c: raise ...`, docstrings, and calls
+        # `self._helper(...)` of a method of the class that itself consists of such guards only (it cannot
+        # return a value or bind anything the caller sees)
+        if isinstance(s, ast.Assert) or (isinstance(s, ast.Expr) and isinstance(s.value, ast.Constant)):
+            return True
+        if isinstance(s, ast.If) and len(s.body) == 1 and isinstance(s.body[0], ast.Raise) and not s.orelse:
+            return True
+        if (depth == 0 and isinstance(s, ast.Expr) and isinstance(s.value, ast.Call)
+                and isinstance(s.value.func, ast.Attribute) and isinstance(s.value.func.value, ast.Name)
+                and s.value.func.value.id == "self" and not s.value.keywords
+                and all(isinstance(a, ast.Name) for a in s.value.args)):
+            try:
+                helper = find_fn(mod, s.value.func.attr, "IntegerGroup")
+            except Untranslatable:
+                return False
+            return bool(helper.body) and all(is_guard(b, 1) for b in helper.body)
+        return False
     def guards(fn):
-        # everything before the final return must be isinstance/assert guards (modelled by hand)
+        # everything before the final return must be guards
         for s in fn.body[:-1]:
-            ok = isinstance(s, ast.Assert) or (isinstance(s, ast.If) and len(s.body) == 1 and isinstance(s.body[0], ast.Raise) and not s.orelse) \
-                or (isinstance(s, ast.Expr) and isinstance(s.value, ast.Constant))
-            if not ok:
+            if not is_guard(s):
                 die("groups.py", s, "unexpected statement in %s" % fn.name)
     add = find_fn(mod, "_add", "IntegerGroup"); guards(add)
     cx = Ctx("groups.py:_add", {}, set(), amap); cx.locals |= {"p", "q", "e1", "e2"}
@@ -607,10 +690,20 @@ def gen_intgroup():
     mem = find_fn(mod, "_is_member", "IntegerGroup")
     # if not e._group is self: return False ; if pow(...) == 1: return True ; return False
     b = [s for s in mem.body if not (isinstance(s, ast.Expr))]
-    if not (len(b) == 3 and isinstance(b[0], ast.If) and "_group" in ast.unparse(b[0].test)):
-        die("groups.py", mem, "_is_member has an unexpected shape")
     cx = Ctx("groups.py:_is_member", {}, set(), amap); cx.locals |= {"p", "q", "e"}
-    lines = body_to_lean(b[1:], cx, 2, [])
+    if (len(b) == 3 and isinstance(b[0], ast.If) and ast.unparse(b[0].test) in ("not e._group is self", "e._group is not self")
+            and ast.unparse(b[0].body[0]) == "return False" and len(b[0].body) == 1 and not b[0].orelse):
+        lines = body_to_lean(b[1:], cx, 2, [])
+    elif (len(b) == 1 and isinstance(b[0], ast.Return) and isinstance(b[0].value, ast.BoolOp)
+            and isinstance(b[0].value.op, ast.And) and len(b[0].value.values) >= 2
+            and ast.unparse(b[0].value.values[0]) == "e._group is self"):
+        # `return e._group is self and <test>`: the same-group test first (short-circuit), then <test>
+        rest = b[0].value.values[1:]
+        if not all(is_bool_expr(v, cx) for v in rest):
+            die("groups.py", mem, "_is_member: non-boolean conjunct")
+        lines = ["  " + (tb(rest[0], cx) if len(rest) == 1 else tb(ast.BoolOp(op=ast.And(), values=rest), cx))]
+    else:
+        die("groups.py", mem, "_is_member has an unexpected shape")
     out.append("/-- `IntegerGroup._is_member` (after the same-group test) -/\ndef is_member (p q : Int) (e : Int) : Bool :=\n%s\n" % "\n".join(lines))
     # constructor check
     init = find_fn(mod, "__init__", "IntegerGroup")
@@ -620,7 +713,25 @@ def gen_intgroup():
     out.append("/-- the constructor's order assertion `pow(g, self.q, self.p) == 1` -/\ndef ctor_ok (p q g : Int) : Bool := decide ((Py.pow3 g q p) = 1)\n")
     # arbitrary_element arithmetic: r = (p-1)//q ; h = N % p ; element = pow(h, r, p)
     arb = find_fn(mod, "arbitrary_element", "IntegerGroup")
-    stm = {ast.unparse(s.targets[0]): s.value for s in arb.body if isinstance(s, ast.Assign)}
+    stm = {}
+    for st in arb.body:
+        if not isinstance(st, ast.Assign):
+            continue
+        t = st.targets[0]
+        if (isinstance(t, ast.Tuple) and len(t.elts) == 2 and all(isinstance(x, ast.Name) for x in t.elts)
+                and isinstance(st.value, ast.Call) and ast.unparse(st.value.func) == "divmod" and len(st.value.args) == 2):
+            # r, rem = divmod(a, b)  ==  r = a // b ; rem = a % b
+            a, b_ = st.value.args
+            new = {t.elts[0].id: ast.BinOp(left=a, op=ast.FloorDiv(), right=b_), t.elts[1].id: ast.BinOp(left=a, op=ast.Mod(), right=b_)}
+        else:
+            new = {ast.unparse(t): st.value}
+        for k, v in new.items():
+            if k in stm:
+                die("groups.py", st, "arbitrary_element: %s bound twice" % k)
+            stm[k] = v
+    for k in ("r", "h", "element"):
+        if k not in stm:
+            die("groups.py", arb, "arbitrary_element: no binding of %s" % k)
     cx = Ctx("groups.py:arbitrary_element", {}, set(), amap); cx.locals |= {"p", "q", "r", "h", "n_"}
     r_txt = tx(stm["r"], cx)
     hv = stm["h"]
@@ -632,6 +743,15 @@ def gen_intgroup():
         die("groups.py", arb, "arbitrary_element: element is not an _Element(...)")
     e_txt = tx(el.args[1], cx)
     asserts = [ast.unparse(s.test) for s in arb.body if isinstance(s, ast.Assert)]
+    # the cofactor assertion is modelled by hand as `r * q == p - 1`; accepted spellings: that one, or
+    # `rem == 0` where `r, rem = divmod(p - 1, q)` (then (p-1) = r*q + rem, so rem == 0 iff r*q == p-1)
+    cof = [a for a in asserts if a == "r * self.q == self.p - 1"]
+    for k, v in stm.items():
+        if (k != "r" and isinstance(v, ast.BinOp) and isinstance(v.op, ast.Mod) and ast.unparse(v) == "(self.p - 1) % self.q"
+                and ast.unparse(stm["r"]) == "(self.p - 1) // self.q"):
+            cof += [a for a in asserts if a in ("%s == 0" % k, "not %s" % k, "0 == %s" % k)]
+    if len(cof) != 1:
+        die("groups.py", arb, "arbitrary_element: cofactor assertion `r * self.q == self.p - 1` not found")
     out.append("/-- `arbitrary_element`: cofactor `r` -/\ndef arb_r (p q : Int) : Int := %s\n" % r_txt)
     out.append("/-- `arbitrary_element`: `h` from the big-endian number `n_` of the expanded seed -/\ndef arb_h (p : Int) (n_ : Int) : Int := %s\n" % h_txt)
     out.append("/-- `arbitrary_element`: value of the element -/\ndef arb_elem (p : Int) (h r : Int) : Int := %s\n" % e_txt)
@@ -645,7 +765,33 @@ def gen_intgroup():
     cx = Ctx("groups.py:password_to_scalar", {}, set()); cx.locals |= {"scalar_size_bytes", "q", "i"}
     out.append("/-- `password_to_scalar`: number of HKDF bytes requested -/\ndef p2s_len (scalar_size_bytes : Int) : Int := %s\n" % tx(calls[0].args[1], cx))
     ret = p2s.body[-1]
-    out.append("/-- `password_to_scalar`: reduction of the big-endian number `i` -/\ndef p2s_reduce (q i : Int) : Int := %s\n" % tx(ret.value, cx))
+    if not isinstance(ret, ast.Return):
+        die("groups.py", p2s, "password_to_scalar does not end in a return")
+    # `i` is the big-endian number of the HKDF output: either bound by `i = bytes_to_number(oversized)` or
+    # the call is written inside the returned expression
+    over = [st for st in p2s.body if isinstance(st, ast.Assign) and ast.unparse(st.targets[0]) == "oversized"]
+    if len(over) != 1 or over[0].value is not calls[0] or len(calls) != 1:
+        die("groups.py", p2s, "password_to_scalar: `oversized = expand_password(pw, ...)` not found")
+    ibind = [st for st in p2s.body if isinstance(st, ast.Assign) and ast.unparse(st.targets[0]) == "i"]
+
+    class B2N(ast.NodeTransformer):
+        n = 0
+
+        def visit_Call(self, node):
+            if ast.unparse(node) == "bytes_to_number(oversized)":
+                B2N.n += 1
+                return ast.copy_location(ast.Name(id="i", ctx=ast.Load()), node)
+            return self.generic_visit(node)
+    retv = B2N().visit(ret.value)
+    if not ((len(ibind) == 1 and ast.unparse(ibind[0].value) == "bytes_to_number(oversized)" and B2N.n == 0)
+            or (len(ibind) == 0 and B2N.n == 1)):
+        die("groups.py", p2s, "password_to_scalar: the reduced number is not bytes_to_number(oversized)")
+    for st in p2s.body:
+        ok = (isinstance(st, ast.Assert) or (isinstance(st, ast.Expr) and isinstance(st.value, ast.Constant))
+              or st is ret or st in over or st in ibind)
+        if not ok:
+            die("groups.py", st, "unexpected statement in password_to_scalar")
+    out.append("/-- `password_to_scalar`: reduction of the big-endian number `i` -/\ndef p2s_reduce (q i : Int) : Int := %s\n" % tx(retv, cx))
     # HKDF parameters
     for fname, lean in (("expand_password", "info_pw"), ("expand_arbitrary_element_seed", "info_arb")):
         f = find_fn(mod, fname)
@@ -684,42 +830,114 @@ def gen_util():
     # unbiased_randrange: maxval, acceptance test, result
     ur = find_fn(mod, "unbiased_randrange")
     stm = [s for s in ur.body if not isinstance(s, ast.Expr)]
+    DRAW = ["enough_bytes = random_list_of_ints(num_bytes, entropy_f)",
+            "assert len(enough_bytes) == num_bytes",
+            "candidate_bytes = mask_list_of_ints(top_byte_mask_int, enough_bytes)"]
+
+    def is_draw_helper(call):
+        """`call` is `_helper(top_byte_mask_int, num_bytes, entropy_f)` and `_helper` is a module-level function
+        with exactly those parameter names whose body is the three DRAW statements followed by
+        `return list_of_ints_to_number(candidate_bytes)`: one draw of the hand-modelled loop body"""
+        if not (isinstance(call, ast.Call) and isinstance(call.func, ast.Name) and not call.keywords):
+            return False
+        if [ast.unparse(a) for a in call.args] != ["top_byte_mask_int", "num_bytes", "entropy_f"]:
+            return False
+        try:
+            hf = find_fn(mod, call.func.id)
+        except Untranslatable:
+            return False
+        if [a.arg for a in hf.args.args] != ["top_byte_mask_int", "num_bytes", "entropy_f"] or hf.args.defaults \
+                or hf.args.vararg or hf.args.kwarg or hf.args.kwonlyargs or hf.decorator_list:
+            return False
+        hb = [ast.unparse(x) for x in hf.body if not (isinstance(x, ast.Expr) and isinstance(x.value, ast.Constant))]
+        return hb in (DRAW + ["return list_of_ints_to_number(candidate_bytes)"],
+                      DRAW + ["candidate_int = list_of_ints_to_number(candidate_bytes)", "return candidate_int"])
     try:
-        a0, a1, loop = stm
+        a0, a1 = stm[0], stm[1]
         assert ast.unparse(a0) == "maxval = stop - start"
         assert ast.unparse(a1) in ("(top_byte_mask_int, num_bytes) = generate_mask(maxval)", "top_byte_mask_int, num_bytes = generate_mask(maxval)")
-        assert isinstance(loop, ast.While) and ast.unparse(loop.test) == "True"
-        lb = loop.body
-        assert ast.unparse(lb[0]) == "enough_bytes = random_list_of_ints(num_bytes, entropy_f)"
-        assert ast.unparse(lb[1]) == "assert len(enough_bytes) == num_bytes"
-        assert ast.unparse(lb[2]) == "candidate_bytes = mask_list_of_ints(top_byte_mask_int, enough_bytes)"
-        assert ast.unparse(lb[3]) == "candidate_int = list_of_ints_to_number(candidate_bytes)"
-        test = lb[4]
-        assert isinstance(test, ast.If) and len(test.body) == 1 and isinstance(test.body[0], ast.Return) and not test.orelse and len(lb) == 5
-    except (AssertionError, ValueError):
+        if len(stm) == 3:
+            # shape A:  while True: <draw>; candidate_int = ...; if <accept>: return <result>
+            loop = stm[2]
+            assert isinstance(loop, ast.While) and ast.unparse(loop.test) == "True" and not loop.orelse
+            lb = loop.body
+            assert [ast.unparse(x) for x in lb[:3]] == DRAW
+            assert ast.unparse(lb[3]) == "candidate_int = list_of_ints_to_number(candidate_bytes)"
+            test = lb[4]
+            assert isinstance(test, ast.If) and len(test.body) == 1 and isinstance(test.body[0], ast.Return) and not test.orelse and len(lb) == 5
+            accept_test, result_expr = test.test, test.body[0].value
+        else:
+            # shape B:  candidate_int = draw(); while <reject>: candidate_int = draw(); return <result>
+            # is the same loop with <accept> = not <reject>: a candidate is drawn, returned as <result> when
+            # <reject> is false, otherwise the next one is drawn
+            first, loop, ret = stm[2:]
+            assert isinstance(first, ast.Assign) and ast.unparse(first.targets[0]) == "candidate_int" and len(first.targets) == 1
+            assert is_draw_helper(first.value)
+            assert isinstance(loop, ast.While) and not loop.orelse and len(loop.body) == 1
+            again = loop.body[0]
+            assert isinstance(again, ast.Assign) and len(again.targets) == 1 and ast.unparse(again.targets[0]) == "candidate_int"
+            assert ast.dump(again.value) == ast.dump(first.value)
+            assert isinstance(ret, ast.Return) and ret.value is not None
+            accept_test = ast.UnaryOp(op=ast.Not(), operand=loop.test)
+            result_expr = ret.value
+        used = {x.id for x in ast.walk(accept_test) if isinstance(x, ast.Name)} | {x.id for x in ast.walk(result_expr) if isinstance(x, ast.Name)}
+        assert used <= {"start", "maxval", "candidate_int"}
+    except (AssertionError, ValueError, IndexError):
         die("util.py", ur, "unbiased_randrange loop has an unexpected shape")
     cx = Ctx("util.py:unbiased_randrange", {}, set()); cx.locals |= {"start", "stop", "maxval", "candidate_int"}
-    out.append("/-- `unbiased_randrange`: acceptance test of one candidate -/\ndef randrange_accept (maxval candidate_int : Int) : Bool := %s\n" % tb(test.test, cx))
-    out.append("/-- `unbiased_randrange`: value returned for an accepted candidate -/\ndef randrange_result (start candidate_int : Int) : Int := %s\n" % tx(test.body[0].value, cx))
+    out.append("/-- `unbiased_randrange`: acceptance test of one candidate -/\ndef randrange_accept (maxval candidate_int : Int) : Bool := %s\n" % tb(accept_test, cx))
+    out.append("/-- `unbiased_randrange`: value returned for an accepted candidate -/\ndef randrange_result (start candidate_int : Int) : Int := %s\n" % tx(result_expr, cx))
     out.append("/-- `unbiased_randrange`: maxval -/\ndef randrange_maxval (start stop : Int) : Int := %s\n" % tx(a0.value, cx))
     # helper functions whose shape is checked textually (modelled by hand in Model/Util.lean)
+    # Each helper has a list of accepted shapes; every shape is one that the hand-written definitions of
+    # Model/Util.lean (`numberToBytes`, `bytesToNumber`, `maskTop`, `beToNat`, `Entropy.take`) describe:
+    #  * bytes_to_number: TypeError for non-bytes (outside the model's typed domain), ValueError for b"", else the
+    #    big-endian value: `int(hexlify(s), 16)` (which raises ValueError on b"") or an explicit emptiness test
+    #    followed by `int.from_bytes(s, 'big')`;
+    #  * number_to_bytes: ValueError above maxval, binascii.Error for negatives, else size_bytes(maxval) big-endian
+    #    bytes: the "%0Nx" / unhexlify round trip ('-' makes unhexlify fail) or the explicit test + `to_bytes`.
+    # Messages of raised exceptions are not observed by the model (only the class): literal arguments of a
+    # raised exception are dropped before comparing.
+    class DropMsg(ast.NodeTransformer):
+        def visit_Raise(self, node):
+            if (isinstance(node.exc, ast.Call) and not node.exc.keywords and node.cause is None
+                    and all(isinstance(a, ast.Constant) and isinstance(a.value, str) for a in node.exc.args)):
+                return ast.copy_location(ast.Raise(exc=node.exc.func, cause=None), node)
+            return node
+
+    def shape_of(f):
+        body = [x for x in f.body if not (isinstance(x, ast.Expr) and isinstance(x.value, ast.Constant))]
+        return "\n".join(ast.unparse(ast.fix_missing_locations(DropMsg().visit(x))) for x in body)
     shapes = {
-        "random_list_of_ints": "return list(iter(entropy_f(count)))",
-        "mask_list_of_ints": "return [top_byte_mask_int & list_of_ints[0]] + list_of_ints[1:]",
-        "list_of_ints_to_number": "s = ''.join(['%02x' % b for b in l])\nreturn int(s, 16)",
-        "bytes_to_number": "if not isinstance(s, type(b'')):\n    raise TypeError\nreturn int(binascii.hexlify(s), 16)",
+        "random_list_of_ints": ["return list(iter(entropy_f(count)))"],
+        "mask_list_of_ints": ["return [top_byte_mask_int & list_of_ints[0]] + list_of_ints[1:]"],
+        "list_of_ints_to_number": ["s = ''.join(['%02x' % b for b in l])\nreturn int(s, 16)"],
+        "bytes_to_number": [
+            "if not isinstance(s, type(b'')):\n    raise TypeError\nreturn int(binascii.hexlify(s), 16)",
+            "if not isinstance(s, type(b'')):\n    raise TypeError\nif not s:\n    raise ValueError\nreturn int.from_bytes(s, 'big')",
+        ],
+        "number_to_bytes": [
+            ("if num > maxval:\n    raise ValueError\nnum_bytes = size_bytes(maxval)\nfmt_str = '%0' + str(2 * num_bytes) + 'x'\n"
+             "s_hex = fmt_str % num\ns = binascii.unhexlify(s_hex.encode('ascii'))\nassert len(s) == num_bytes\n"
+             "assert isinstance(s, type(b''))\nreturn s"),
+            ("if num > maxval:\n    raise ValueError\nnum_bytes = size_bytes(maxval)\nnum = operator.index(num)\n"
+             "if num < 0:\n    raise binascii.Error\ns = num.to_bytes(num_bytes, 'big')\nassert len(s) == num_bytes\n"
+             "assert isinstance(s, type(b''))\nreturn s"),
+        ],
     }
     for name, want in shapes.items():
         f = find_fn(mod, name)
-        got = "\n".join(ast.unparse(s) for s in f.body if not (isinstance(s, ast.Expr) and isinstance(s.value, ast.Constant)))
-        if got != want:
+        got = shape_of(f)
+        if got not in want:
             die("util.py", f, "%s changed shape: %r" % (name, got))
-    n2b = find_fn(mod, "number_to_bytes")
-    got = "\n".join(ast.unparse(s) for s in n2b.body)
-    want = ("if num > maxval:\n    raise ValueError\nnum_bytes = size_bytes(maxval)\nfmt_str = '%0' + str(2 * num_bytes) + 'x'\n"
-            "s_hex = fmt_str % num\ns = binascii.unhexlify(s_hex.encode('ascii'))\nassert len(s) == num_bytes\nassert isinstance(s, type(b''))\nreturn s")
-    if got != want:
-        die("util.py", n2b, "number_to_bytes changed shape")
+    # the names the shapes rely on must be the standard modules
+    imported = set()
+    for node in mod.body:
+        if isinstance(node, ast.Import):
+            imported |= {(a.asname or a.name) for a in node.names if a.asname in (None, a.name)}
+    for need in ("binascii", "operator"):
+        if need in " ".join(shape_of(find_fn(mod, n)) for n in shapes) and need not in imported:
+            die("util.py", mod.body[0], "module %s is used but not imported under its own name" % need)
     out.append("end Util\nend Spake2Model.Gen\n")
     return "\n".join(out), h
 
@@ -742,9 +960,47 @@ def gen_consts():
         raise Untranslatable("spake2.py: side constants / DefaultParams not found")
     src, mod, h = read("params.py"); hs["params.py"] = h
     init = find_fn(mod, "__init__", "_Params")
-    defaults = [d.value for d in init.args.defaults]
-    names = [a.arg for a in init.args.args][-len(defaults):]
-    seeds = dict(zip(names, defaults))
+
+    def bytes_consts(m):
+        """module-level `NAME = b'...'` constants (a name bound twice at module level is rejected)"""
+        out_, seen = {}, set()
+        for node in ast.walk(m):
+            # any other binding of a module-level name (global statements, loops, ...) is outside the subset
+            if isinstance(node, ast.Global):
+                raise Untranslatable("params: `global` statement")
+        for node in m.body:
+            names_ = []
+            if isinstance(node, ast.Assign):
+                for t in node.targets:
+                    names_ += [x.id for x in ast.walk(t) if isinstance(x, ast.Name)]
+            elif isinstance(node, (ast.AugAssign, ast.AnnAssign)) and isinstance(node.target, ast.Name):
+                names_ = [node.target.id]
+            elif isinstance(node, (ast.FunctionDef, ast.ClassDef)):
+                names_ = [node.name]
+            elif isinstance(node, (ast.For, ast.While, ast.If, ast.With, ast.Try)):
+                names_ = [x.id for x in ast.walk(node) if isinstance(x, ast.Name) and isinstance(x.ctx, ast.Store)]
+            for n in names_:
+                if n in seen:
+                    out_.pop(n, None)
+                    out_[n] = None
+                seen.add(n)
+            if (isinstance(node, ast.Assign) and len(node.targets) == 1 and isinstance(node.targets[0], ast.Name)
+                    and isinstance(node.value, ast.Constant) and isinstance(node.value.value, bytes)
+                    and out_.get(node.targets[0].id, 0) == 0):
+                out_[node.targets[0].id] = node.value.value
+        return {k: v for k, v in out_.items() if v is not None}
+    params_consts = bytes_consts(mod)
+
+    def seed_value(node, consts, what):
+        if isinstance(node, ast.Constant) and isinstance(node.value, bytes):
+            return node.value
+        if isinstance(node, ast.Name) and node.id in consts:
+            return consts[node.id]
+        raise Untranslatable("%s: seed `%s` is not a bytes literal or a module-level bytes constant" % (what, ast.unparse(node)))
+    names = [a.arg for a in init.args.args][-len(init.args.defaults):] if init.args.defaults else []
+    seeds = {n: seed_value(d, params_consts, "params.py") for n, d in zip(names, init.args.defaults)}
+    if [a.arg for a in init.args.args] != ["self", "group", "M", "N", "S"] or set(seeds) != {"M", "N", "S"}:
+        raise Untranslatable("params.py: _Params.__init__ signature changed")
     body = [ast.unparse(s) for s in init.body]
     for want in ("self.M = group.arbitrary_element(seed=M)", "self.N = group.arbitrary_element(seed=N)", "self.S = group.arbitrary_element(seed=S)"):
         if want not in body:
@@ -752,17 +1008,69 @@ def gen_consts():
     psets = {}
     for f, var in (("ed25519.py", "ParamsEd25519"), ("i1024.py", "Params1024"), ("i2048.py", "Params2048"), ("i3072.py", "Params3072")):
         src, mod, h = read(os.path.join("parameters", f)); hs["parameters/" + f] = h
+        # names imported from ..params keep the values of params.py's module-level bytes constants
+        pconsts = {}
         for node in mod.body:
-            if isinstance(node, ast.Assign) and node.targets[0].id == var:
-                psets[var] = ast.unparse(node.value)
+            if isinstance(node, ast.ImportFrom) and node.level == 2 and node.module == "params":
+                for a in node.names:
+                    if a.name in params_consts:
+                        pconsts[a.asname or a.name] = params_consts[a.name]
+        local = bytes_consts(mod)
+        for node in mod.body:
+            if isinstance(node, ast.Assign):
+                for t in node.targets:
+                    for x in ast.walk(t):
+                        if isinstance(x, ast.Name):
+                            pconsts.pop(x.id, None)
+        pconsts.update(local)
+        for node in mod.body:
+            if isinstance(node, ast.Assign) and isinstance(node.targets[0], ast.Name) and node.targets[0].id == var:
+                v = node.value
+                if isinstance(v, ast.Call) and v.keywords and len(v.args) == 1:
+                    # explicit seeds: accepted when they are the default seeds (the model has one seed triple)
+                    kws = {k.arg: k.value for k in v.keywords}
+                    if None in kws or not set(kws) <= {"M", "N", "S"} or len(kws) != len(v.keywords):
+                        raise Untranslatable("parameters/%s: unexpected keyword arguments" % f)
+                    for k, kv in kws.items():
+                        if seed_value(kv, pconsts, "parameters/" + f) != seeds[k]:
+                            raise Untranslatable("parameters/%s: seed %s differs from the default seed" % (f, k))
+                    v = ast.Call(func=v.func, args=v.args, keywords=[])
+                psets[var] = ast.unparse(v)
     want = {"ParamsEd25519": "_Params(Ed25519Group)", "Params1024": "_Params(I1024)", "Params2048": "_Params(I2048)", "Params3072": "_Params(I3072)"}
     if psets != want:
         raise Untranslatable("parameters/*: parameter sets changed: %r" % psets)
     src, mod, h = read("ed25519_group.py"); hs["ed25519_group.py"] = h
     sizes = {}
+    # attributes given to the instance by its constructor: `Ed25519Group = _C()` with
+    # `_C.__init__(self)` consisting of plain `self.X = <expr>` statements
+    for node in mod.body:
+        if (isinstance(node, ast.Assign) and len(node.targets) == 1 and isinstance(node.targets[0], ast.Name)
+                and node.targets[0].id == "Ed25519Group" and isinstance(node.value, ast.Call)
+                and isinstance(node.value.func, ast.Name) and not node.value.args and not node.value.keywords):
+            try:
+                ctor = find_fn(mod, "__init__", node.value.func.id)
+            except Untranslatable:
+                continue
+            if [a.arg for a in ctor.args.args] != ["self"] or ctor.args.vararg or ctor.args.kwarg or ctor.args.kwonlyargs:
+                raise Untranslatable("ed25519_group.py: constructor with parameters")
+            for st in ctor.body:
+                if isinstance(st, ast.Expr) and isinstance(st.value, ast.Constant):
+                    continue
+                if not (isinstance(st, ast.Assign) and len(st.targets) == 1 and isinstance(st.targets[0], ast.Attribute)
+                        and isinstance(st.targets[0].value, ast.Name) and st.targets[0].value.id == "self"):
+                    raise Untranslatable("ed25519_group.py: line %d: unsupported statement in the constructor" % st.lineno)
+                if any(isinstance(x, ast.Name) and x.id == "self" for x in ast.walk(st.value)):
+                    raise Untranslatable("ed25519_group.py: line %d: constructor attribute depends on self" % st.lineno)
+                key = "Ed25519Group." + st.targets[0].attr
+                if key in sizes:
+                    raise Untranslatable("ed25519_group.py: attribute %s set twice" % key)
+                sizes[key] = ast.unparse(st.value)
     for node in mod.body:
         if isinstance(node, ast.Assign) and isinstance(node.targets[0], ast.Attribute):
-            sizes[ast.unparse(node.targets[0])] = ast.unparse(node.value)
+            key = ast.unparse(node.targets[0])
+            if key in sizes:
+                raise Untranslatable("ed25519_group.py: attribute %s set twice" % key)
+            sizes[key] = ast.unparse(node.value)
     if sizes.get("Ed25519Group.scalar_size_bytes") is None or sizes.get("Ed25519Group.element_size_bytes") is None:
         raise Untranslatable("ed25519_group.py: sizes not found")
     if sizes.get("Ed25519Group.Base") != "ed25519_basic.Base" or sizes.get("Ed25519Group.Zero") != "ed25519_basic.Zero":
